@@ -494,7 +494,6 @@ _benign_corpus()
 KNOWN_BRITTLE = {
     ("ben-C01-4", "C03"): "read_weights: manual round-up `if` rewritten as div_ceil, `<= -1` as `< 0` (integer identities beyond the normal form)",
     ("ben-C13-4", "C03"): "read_weights: div_ceil / `> 255` as `>= 256` / `% 2` as `& 1`",
-    ("ben-C13-4", "C13"): "reader nibble order: `idx % 2` spelled `idx & 1` together with usize::from",
     ("ben-C05-4", "C03"): "execute_sequences: `counter += ll` rewritten as `counter = high`",
     ("ben-C05-4", "C05"): "execute_sequences: `counter += ll` rewritten as `counter = high`",
     ("ben-C06-2", "C06"): "checksum take moved into a helper returning bool: MIR counter/return pairing is per function",
